@@ -590,8 +590,10 @@ def run_property(prop, tier, cases, jobs=None, meta=None, only=None, keep=False)
             'wall_s': round(time.time() - t0, 1),
             'violations': len(vio_lines),
         }
-        os.makedirs(os.path.join(OUT, 'evidence'), exist_ok=True)
-        with open(os.path.join(OUT, 'evidence', prop + '.json'), 'w') as fh:
+        # a partial run (--only) must not overwrite the evidence of the full check
+        evdir = os.path.join(OUT, 'evidence') if not only else os.path.join(OUT, '.work', 'partial-evidence')
+        os.makedirs(evdir, exist_ok=True)
+        with open(os.path.join(evdir, prop + '.json'), 'w') as fh:
             json.dump(ev, fh, indent=1)
         # --- report
         for k in sorted(set((k['property'], k['tag'], k['text']) for (k, r, f) in known_hits)):
